@@ -29,7 +29,8 @@ EmitOn == "OUT" \in DOMAIN IOEnv
 TTL == 2
 
 Body(n, salt) == [i \in 1 .. n |-> (i * 7 + salt * 13) % 256]
-Tok(n) == << (n * 17) % 256, n % 256 >>
+\* token length varies from request to request (0..8 bytes)
+Tok(n) == [i \in 1 .. (n % 9) |-> (n * 17 + i) % 256]
 SegA == << 97 >>
 SegB == << 98 >>
 SegAB == << 97, 47, 98 >>
